@@ -3,7 +3,12 @@
 import functools as ft
 from typing import Any, Callable, Mapping, Optional, Type, cast
 
-from ..exc import CoercionError, ExecutionError, ResolverError
+from ..exc import (
+    CoercionError,
+    ExecutionError,
+    ResolverError,
+    VariablesCoercionError,
+)
 from ..lang import ast as _ast
 from ..schema import ObjectType, Schema
 from ..utilities import coerce_variable_values
@@ -187,18 +192,37 @@ def execute_subscription_event(
     # of the caches while isolating the errors.
     executor.clear_errors()
 
-    return executor.runtime.ensure_wrapped(
-        executor.runtime.map_value(
-            executor.runtime.unwrap_value(
-                executor.execute_fields(
-                    root_type,
-                    event,
-                    [],
-                    executor.collect_fields(
-                        root_type, operation.selection_set.selections
-                    ),
-                )
+    def _on_abort(err):
+        # Same as `execute`: an `ExecutionError` (or `VariablesCoercionError`)
+        # raised while executing the event, e.g. by a resolver, aborts the
+        # execution of THIS event and is its result; the stream goes on.
+        return GraphQLResult(
+            data=None,
+            errors=(
+                err.errors
+                if isinstance(err, VariablesCoercionError)
+                else [err]
             ),
-            lambda data: GraphQLResult(data=data, errors=executor.errors),
         )
-    )
+
+    aborting = (ExecutionError, VariablesCoercionError)
+
+    try:
+        return executor.runtime.ensure_wrapped(
+            executor.runtime.map_value(
+                executor.runtime.unwrap_value(
+                    executor.execute_fields(
+                        root_type,
+                        event,
+                        [],
+                        executor.collect_fields(
+                            root_type, operation.selection_set.selections
+                        ),
+                    )
+                ),
+                lambda data: GraphQLResult(data=data, errors=executor.errors),
+                else_=(aborting, _on_abort),  # type: ignore
+            )
+        )
+    except aborting as err:
+        return executor.runtime.ensure_wrapped(_on_abort(err))
